@@ -25,6 +25,9 @@ Definition rnd_ok (g k s : Z) : Prop := G.rnd Gran.HVam g k s = s.
 
 Definition gran_ok (g : Z) : Prop := Bits.pow2 g /\ 1 <= g <= 4294967296.
 
+Section GVc.
+Variable c : vcfg.
+
 Definition tlsfb (mt : meta) : bool := match mt with MTlsf _ => true | MLin _ => false end.
 
 (* block b is fit for list l: TLSF metadata iff the list's algorithm is 0, and then GInv for the list's granularity *)
@@ -32,7 +35,7 @@ Definition blk_ok (l : blist) (b : block) : Prop :=
   tlsfb (bk_meta b) = (bl_algo l =? 0) /\ forall t, bk_meta b = MTlsf t -> GranTlsf.GInv (bl_gran l) t.
 
 Record GV (v : vam) : Prop := mkGV {
-  gv_cfg : forall lr l, get_blist v lr = Some l -> Bits.pow2 (bl_minalign l) /\ gran_ok (bl_gran l);
+  gv_cfg : forall lr l, get_blist v lr = Some l -> Bits.pow2 (bl_minalign l) /\ gran_ok (bl_gran l) /\ type_valid c (bl_type l) = true;
   gv_blocks : forall lr l b, get_blist v lr = Some l -> In b (bl_blocks l) -> blk_ok l b;
   gv_allocs : forall s a, slot_is v s a -> a_kind a = 1 ->
               GranInv.kind_ok (a_sub a) /\
@@ -155,21 +158,21 @@ Proof.
 Qed.
 
 (* the configuration of a list that the invariant looks at *)
-Definition cfg3 (l l' : blist) : Prop := bl_minalign l' = bl_minalign l /\ bl_gran l' = bl_gran l /\ bl_algo l' = bl_algo l.
+Definition cfg3 (l l' : blist) : Prop := bl_minalign l' = bl_minalign l /\ bl_gran l' = bl_gran l /\ bl_algo l' = bl_algo l /\ bl_type l' = bl_type l.
 
 Lemma cfg3_refl l : cfg3 l l. Proof. repeat split. Qed.
 Lemma cfg3_set_blocks l bs : cfg3 l (set_blocks l bs). Proof. repeat split. Qed.
 
 Lemma blk_ok_cfg l l' b : cfg3 l l' -> blk_ok l b -> blk_ok l' b.
-Proof. intros (_ & Eg & Ea) (A & B). unfold blk_ok. rewrite Eg, Ea. auto. Qed.
+Proof. intros (_ & Eg & Ea & _) (A & B). unfold blk_ok. rewrite Eg, Ea. auto. Qed.
 
 (* a list is replaced: same configuration, blocks that are fit *)
 Lemma GR_set_blist v lr l l' :
   get_blist v lr = Some l -> cfg3 l l' -> (GV v -> forall b', In b' (bl_blocks l') -> blk_ok l b') -> GR v (set_blist v lr l').
 Proof.
-  intros Hg Hc3 Hk HV. pose proof Hc3 as (Ea & Eg & Eal). pose proof HV as [A B C]. constructor.
+  intros Hg Hc3 Hk HV. pose proof Hc3 as (Ea & Eg & Eal & Ety). pose proof HV as [A B C]. constructor.
   - intros lr1 l1 Hg1. destruct (lref_eq_dec lr1 lr) as [->|Hne].
-    + rewrite (get_set_blist_same _ _ _ _ Hg) in Hg1. injection Hg1 as <-. rewrite Ea, Eg. eauto.
+    + rewrite (get_set_blist_same _ _ _ _ Hg) in Hg1. injection Hg1 as <-. rewrite Ea, Eg, Ety. eauto.
     + rewrite get_set_blist_other in Hg1 by congruence. eauto.
   - intros lr1 l1 b1 Hg1 Hb1. destruct (lref_eq_dec lr1 lr) as [->|Hne].
     + rewrite (get_set_blist_same _ _ _ _ Hg) in Hg1. injection Hg1 as <-. apply (blk_ok_cfg l l' _ Hc3). apply Hk; auto.
@@ -260,7 +263,6 @@ Qed.
 (* ---------------------------------------------------------------- block_list.go *)
 
 Section WithCfg.
-Variable c : vcfg.
 
 Lemma sort_in (l : blist) b : In b (bl_blocks (incrementally_sort l)) -> In b (bl_blocks l).
 Proof.
@@ -299,7 +301,7 @@ Proof.
   intros HV b' Hb'. cbn [bl_blocks set_blocks_next] in Hb'. apply in_app_iff in Hb'. destruct Hb' as [Hb'|[<-|[]]].
   - apply (gv_blocks _ HV lr l b'); [rewrite get_blist_set_m; exact Hg|exact Hb'].
   - split; cbn [bk_meta]; unfold meta_init; destruct (bl_algo l =? 0); try reflexivity; [|intros t Et; discriminate].
-    intros t Et. injection Et as <-. destruct (gv_cfg _ HV lr l ltac:(rewrite get_blist_set_m; exact Hg)) as (_ & Hp & Hr).
+    intros t Et. injection Et as <-. destruct (gv_cfg _ HV lr l ltac:(rewrite get_blist_set_m; exact Hg)) as (_ & (Hp & Hr) & _).
     apply GranTlsf.init_GInv_wide; [split; [lia|exact Hp]|exact Hr].
 Qed.
 
@@ -484,7 +486,7 @@ Proof.
     assert (Hg2 : get_blist v2 lr = Some (set_blocks l (replace_block (bl_blocks l) (mkBlock (bk_id b) (bk_mem b) s2 (bk_meta b))))).
     { unfold v2. apply put_block_get'. rewrite get_blist_set_m. exact Hg. }
     apply (GR_set_blist (set_m v2 m3) lr _ _ ltac:(rewrite get_blist_set_m; exact Hg2)); [|intros _ x Hx|apply GR_set_m; exact V2].
-    - destruct (sort_cfg (set_blocks l bs4)) as (A1 & A2 & A3). repeat split; cbn in *; congruence.
+    - destruct (sort_cfg (set_blocks l bs4)) as (A1 & A2 & A3 & A4). repeat split; cbn in *; congruence.
     - apply sort_in in Hx. cbn [bl_blocks set_blocks] in Hx. apply (blk_ok_cfg l); [repeat split|].
       destruct (Hbs4 x Hx) as [->|Hin]; [|apply (gv_blocks _ HV _ _ _ Hg Hin)]. unfold b'. eapply meta_free_ok; eauto. }
   set (v3 := set_blist (set_m v2 m3) lr (incrementally_sort (set_blocks l bs4))) in *.
@@ -578,7 +580,6 @@ End WithCfg.
 (* ---------------------------------------------------------------- allocator.go, dedicated_list.go, pool.go, allocation.go *)
 
 Section Alloc.
-Variable c : vcfg.
 
 Lemma ded_page_G v lr ty size sub doMap allowed slot ded : GR v (fst (allocate_dedicated_page c v lr ty size sub doMap allowed slot ded)).
 Proof.
@@ -644,7 +645,7 @@ Proof.
   cbn [fst] in H2.
   assert (K2 : GR v v2) by (eapply GR_trans; eauto).
   destruct early as [r|]; cbn [fst]; [exact K2|].
-  pose proof (bl_allocate_G c v2 lr slots size align f1 sub Hal Hk) as H3. destruct (bl_allocate c v2 lr slots size align f1 sub) as (v3 & br). cbn [fst] in H3.
+  pose proof (bl_allocate_G v2 lr slots size align f1 sub Hal Hk) as H3. destruct (bl_allocate c v2 lr slots size align f1 sub) as (v3 & br). cbn [fst] in H3.
   assert (K3 : GR v v3) by (eapply GR_trans; eauto).
   destruct br as [[]|bcode| |]; cbn [fst]; try exact K3.
   match goal with |- context [if ?cnd then _ else (v3, ER bcode)] => destruct cnd end; [|exact K3].
@@ -731,7 +732,6 @@ Proof.
 Qed.
 
 Section Api.
-Variable c : vcfg.
 Hypothesis Hc : cfg_ok c.
 
 Lemma bl_destroy_uids' v lr : map p_uid (v_pools (fst (bl_destroy c v lr))) = map p_uid (v_pools v).
@@ -746,7 +746,7 @@ Lemma pool_destroy_G v uid : NoDup (map p_uid (v_pools v)) -> GR v (fst (pool_de
 Proof.
   intros Hnd K. unfold pool_destroy. destruct (find_pool (v_pools v) uid) as [p|]; [|exact K].
   destruct (p_ded p); [|exact K].
-  pose proof (bl_destroy_G c v (LPool uid) K) as K1. pose proof (bl_destroy_uids' v (LPool uid)) as U1.
+  pose proof (bl_destroy_G v (LPool uid) K) as K1. pose proof (bl_destroy_uids' v (LPool uid)) as U1.
   destruct (bl_destroy c v (LPool uid)) as (v1 & r). cbn [fst] in *.
   destruct r as [[]|code| |]; cbn [fst]; try exact K1.
   apply GV_remove_pool; [rewrite U1; exact Hnd|exact K1].
@@ -757,6 +757,37 @@ Proof.
   split; [apply (eff_granularity_pow2 c Hc)|]. unfold eff_granularity. pose proof (co_gran_max _ Hc). destruct (c_gran c <? 1) eqn:E; [lia|apply Z.ltb_ge in E; lia].
 Qed.
 
+(* CreatePool links the new (empty) list under the fresh uid *)
+Lemma create_pool_link_G v ty flags minAlign bs minB maxB expl algo :
+  ~ In (v_next_uid v) (map p_uid (v_pools v)) ->
+  (forall s a, slot_is v s a -> a_kind a = 1 -> a_lref a <> LPool (v_next_uid v)) ->
+  (ty <? 0) || (ntypes c <=? ty) = false -> (0 <? minAlign) && negb (is_pow2_or_zero minAlign) = false ->
+  GV v ->
+  GV (mkVam (v_m v) (v_global v) (v_lists v) (v_ded v)
+        (mkPool (v_next_uid v) (v_next_pool_id v)
+           (mkBlist ty bs minB maxB (if Z.testbit flags 0 then 1 else eff_granularity c) expl algo
+              (if type_min_alignment c ty <? minAlign then minAlign else type_min_alignment c ty) [] 0 true) [] :: v_pools v)
+        (v_next_pool_id v + 1) (v_next_uid v + 1) (v_tab v)).
+Proof.
+  intros Hfresh Hnone Ety Eal K. set (uid := v_next_uid v) in *.
+  match goal with |- GV ?w => set (v0 := w) end.
+  assert (G0 : forall lr, lr <> LPool uid -> get_blist v0 lr = get_blist v lr).
+  { intros lr Hne. destruct lr as [t|u]; [reflexivity|]. cbn. destruct (uid =? u) eqn:E; [apply Z.eqb_eq in E; congruence|reflexivity]. }
+  destruct K as [A B C0]. constructor.
+  - intros lr l Hg. destruct (lref_eq_dec lr (LPool uid)) as [->|Hne]; [|rewrite G0 in Hg by exact Hne; eauto].
+    cbn in Hg. rewrite Z.eqb_refl in Hg. injection Hg as <-. cbn [bl_minalign bl_gran]. split.
+    + pose proof (type_min_alignment_pow2 c Hc ty) as Ht. destruct (type_min_alignment c ty <? minAlign) eqn:E; [|auto].
+      apply Z.ltb_lt in E. pose proof (Bits.pow2_pos _ Ht). apply andb_false_iff in Eal. destruct Eal as [Eal|Eal].
+      * apply Z.ltb_ge in Eal. lia.
+      * apply negb_false_iff in Eal. destruct (pow2_or_zero_spec _ Eal); [lia|auto].
+    + split; [match goal with |- gran_ok (if ?b then 1 else _) => destruct b end; [split; [apply Bits.pow2_1|lia]|apply eff_granularity_ok]|].
+      cbn [bl_type]. unfold type_valid. apply orb_false_iff in Ety. destruct Ety as (E1 & E2). apply Z.ltb_ge in E1. apply Z.leb_gt in E2.
+      apply andb_true_iff. split; [apply Z.leb_le; lia|apply Z.ltb_lt; lia].
+  - intros lr l b Hg Hb. destruct (lref_eq_dec lr (LPool uid)) as [->|Hne]; [|rewrite G0 in Hg by exact Hne; eauto].
+    cbn in Hg. rewrite Z.eqb_refl in Hg. injection Hg as <-. destruct Hb.
+  - intros s a Sa Ka. destruct (C0 s a Sa Ka) as (X1 & X2). split; [exact X1|]. intros l Hg. rewrite G0 in Hg by (apply (Hnone s a Sa Ka)). auto.
+Qed.
+
 (* CreatePool: a new list appears under the fresh uid; no live block Allocation names it (VamInv: its list would exist) *)
 Lemma create_pool_G v ty flags blockSize minB maxB0 minAlign :
   NoDup (map p_uid (v_pools v)) -> ~ In (v_next_uid v) (map p_uid (v_pools v)) ->
@@ -764,27 +795,12 @@ Lemma create_pool_G v ty flags blockSize minB maxB0 minAlign :
   GR v (fst (create_pool c v ty flags blockSize minB maxB0 minAlign)).
 Proof.
   intros Hnd Hfresh Hnone K. unfold create_pool.
-  destruct (_ <? minB); [exact K|]. destruct (_ || _); [exact K|]. destruct (negb _); [exact K|].
+  destruct (_ <? minB); [exact K|]. destruct ((ty <? 0) || (ntypes c <=? ty)) eqn:Ety; [exact K|]. destruct (negb _); [exact K|].
   destruct ((0 <? minAlign) && negb (is_pow2_or_zero minAlign)) eqn:Eal; [exact K|].
   set (uid := v_next_uid v) in *.
   match goal with |- context [create_min_blocks c (Z.to_nat minB) ?w (LPool uid) ?bs] => set (v0 := w); set (bsz := bs) end.
-  assert (Hfp : find_pool (v_pools v) uid = None).
-  { destruct (find_pool (v_pools v) uid) as [p|] eqn:E; [|reflexivity]. exfalso. destruct (find_pool_in _ _ _ E) as (Hp & Hu). apply Hfresh. rewrite <- Hu. apply in_map. exact Hp. }
-  assert (G0 : forall lr, lr <> LPool uid -> get_blist v0 lr = get_blist v lr).
-  { intros lr Hne. destruct lr as [t|u]; [reflexivity|]. cbn. destruct (uid =? u) eqn:E; [apply Z.eqb_eq in E; congruence|reflexivity]. }
-  assert (K0 : GV v0).
-  { destruct K as [A B C0]. constructor.
-    - intros lr l Hg. destruct (lref_eq_dec lr (LPool uid)) as [->|Hne]; [|rewrite G0 in Hg by exact Hne; eauto].
-      cbn in Hg. rewrite Z.eqb_refl in Hg. injection Hg as <-. cbn [bl_minalign bl_gran]. split.
-      + pose proof (type_min_alignment_pow2 c Hc ty) as Ht. destruct (type_min_alignment c ty <? minAlign) eqn:E; [|auto].
-        apply Z.ltb_lt in E. pose proof (Bits.pow2_pos _ Ht). apply andb_false_iff in Eal. destruct Eal as [Eal|Eal].
-        * apply Z.ltb_ge in Eal. lia.
-        * apply negb_false_iff in Eal. destruct (pow2_or_zero_spec _ Eal); [lia|auto].
-      + match goal with |- gran_ok (if ?b then 1 else _) => destruct b end; [split; [apply Bits.pow2_1|lia]|apply eff_granularity_ok].
-    - intros lr l b Hg Hb. destruct (lref_eq_dec lr (LPool uid)) as [->|Hne]; [|rewrite G0 in Hg by exact Hne; eauto].
-      cbn in Hg. rewrite Z.eqb_refl in Hg. injection Hg as <-. destruct Hb.
-    - intros s a Sa Ka. destruct (C0 s a Sa Ka) as (X1 & X2). split; [exact X1|]. intros l Hg. rewrite G0 in Hg by (apply (Hnone s a Sa Ka)). auto. }
-  pose proof (create_min_blocks_G c (Z.to_nat minB) v0 (LPool uid) bsz K0) as K1.
+  assert (K0 : GV v0) by (apply create_pool_link_G; auto).
+  pose proof (create_min_blocks_G (Z.to_nat minB) v0 (LPool uid) bsz K0) as K1.
   pose proof (VamShapeStep.create_min_blocks_uids c (Z.to_nat minB) v0 (LPool uid) bsz) as U1.
   destruct (create_min_blocks c (Z.to_nat minB) v0 (LPool uid) bsz) as (v1 & r). cbn [fst] in *.
   destruct r as [[]|code| |]; cbn [fst]; try exact K1.
@@ -802,7 +818,6 @@ Qed.
 End Api.
 
 Section Api2.
-Variable c : vcfg.
 Hypothesis Hc : cfg_ok c.
 
 Lemma allocation_free_G v slot : GR v (fst (allocation_free c v slot)).
@@ -866,7 +881,7 @@ Proof.
   intros Hk. unfold create_resource. destruct (dev_create_res (v_m v) image kind devreq) as ((m1 & code) & id).
   destruct (negb _); [apply GR_set_m|]. destruct (get_requirements c m1 image id) as (((m2 & rq) & rd) & pd).
   match goal with |- context [multi_allocate c (set_m v m2) ?a1 ?a2 ?a3 ?a4 ?a5 ?a6 ?a7 usage flags req pref ctb pool sub [slot]] =>
-    pose proof (multi_allocate_G c (set_m v m2) a1 a2 a3 a4 a5 a6 a7 usage flags req pref ctb pool sub [slot] Hk) as H;
+    pose proof (multi_allocate_G (set_m v m2) a1 a2 a3 a4 a5 a6 a7 usage flags req pref ctb pool sub [slot] Hk) as H;
     destruct (multi_allocate c (set_m v m2) a1 a2 a3 a4 a5 a6 a7 usage flags req pref ctb pool sub [slot]) as (v3 & r) end.
   cbn [fst] in H. assert (K3 : GR v v3) by (eapply GR_trans; [apply GR_set_m|exact H]).
   destruct r as [[]|acode| |]; cbn [fst]; try exact K3; [|eapply GR_trans; [exact K3|apply GR_set_m]].
@@ -903,7 +918,7 @@ Qed.
 Lemma destroy_lists_G n : forall v t, GR v (fst (destroy_lists c v n t)).
 Proof.
   induction n as [|k IH]; intros v t; cbn [destroy_lists]; [apply GR_refl|]. destruct (get_blist v (LDef t)); [|apply IH].
-  pose proof (bl_destroy_G c v (LDef t)) as H. destruct (bl_destroy c v (LDef t)) as (v1 & r). cbn [fst] in H.
+  pose proof (bl_destroy_G v (LDef t)) as H. destruct (bl_destroy c v (LDef t)) as (v1 & r). cbn [fst] in H.
   destruct r as [[]|code| |]; cbn [fst]; try exact H. eapply GR_trans; [exact H|apply IH].
 Qed.
 
@@ -932,7 +947,7 @@ Proof.
   - apply allocation_unmap_G; exact K.
   - apply allocation_flush_G; exact K.
   - apply harness_rw_G; exact K.
-  - apply (create_pool_G c Hc); auto. intros s a Sa Ka E.
+  - apply (create_pool_G Hc); auto. intros s a Sa Ka E.
     destruct (vi_slots _ _ _ _ HI s a Sa (fun H => H)) as [(_ & l & b & rg & Hg & _)|(K2 & _)]; [|congruence].
     rewrite E in Hg. cbn in Hg. destruct (find_pool (v_pools v) (v_next_uid v)) as [p|] eqn:Ef; [|discriminate].
     apply Hfresh. destruct (find_pool_in _ _ _ Ef) as (Hp & Hu). rewrite <- Hu. apply in_map. exact Hp.
@@ -953,8 +968,8 @@ Lemma vam_new_G nslots v : vam_new c nslots = OK v -> GV v.
 Proof.
   intros H. pose proof (vam_new_inv c Hc nslots v H) as HI. unfold vam_new in H. destruct (negb _); [discriminate|]. destruct (negb _); [discriminate|]. injection H as <-.
   constructor.
-  - intros lr l Hg. pose proof (vi_lists _ _ _ _ HI _ _ Hg) as Hwf. split; [apply (bw_align _ _ Hwf)|].
-    split; [apply (bw_gran _ _ Hwf)|]. destruct (bw_gran_src _ _ Hwf) as [E|E]; rewrite E; [lia|]. apply (eff_granularity_ok c Hc).
+  - intros lr l Hg. pose proof (vi_lists _ _ _ _ HI _ _ Hg) as Hwf. split; [apply (bw_align _ _ Hwf)|]. split; [|apply (bw_type _ _ Hwf)].
+    split; [apply (bw_gran _ _ Hwf)|]. destruct (bw_gran_src _ _ Hwf) as [E|E]; rewrite E; [lia|]. apply (eff_granularity_ok Hc).
   - intros lr l b Hg Hb. exfalso. destruct lr as [t|u]; [|cbn in Hg; discriminate]. cbn in Hg.
     destruct (nth_z (init_lists c _ _ 0) t) as [[x|]|] eqn:E; try discriminate. injection Hg as ->.
     destruct (VamInvStep2.init_lists_spec c _ _ _ _ _ E) as (_ & ->). destruct Hb.
@@ -962,3 +977,5 @@ Proof.
 Qed.
 
 End Api2.
+
+End GVc.
